@@ -30,6 +30,8 @@ pub struct Ctx {
     notes: Vec<String>,
     /// a directory of this run's own for files the code under test reads (`include` / `require`)
     pub scratch: String,
+    /// where `progress` writes what the implementation is about to be given
+    progress_file: String,
 }
 
 /// small library files for `include` / `require` (created on first use inside this run's scratch directory)
@@ -44,6 +46,10 @@ pub fn lib_files(dir: &str) -> String {
 }
 
 impl Ctx {
+    /// note what the implementation is about to be given: if it never comes back, the orchestrator reports this input
+    pub fn progress(&self, what: &str) {
+        let _ = std::fs::write(&self.progress_file, what);
+    }
     /// record one correspondence case: the request line for the model and what the implementation answered
     pub fn case(&mut self, op: String, imp: String) {
         debug_assert!(!op.contains('\n') && !imp.contains('\n'));
@@ -150,6 +156,7 @@ fn main() {
         oracle_failures: Vec::new(),
         notes: Vec::new(),
         scratch: format!("{}/scratch-{}-{}", outdir, prop, std::process::id()),
+        progress_file: format!("{}/{}.progress", outdir, prop),
     };
     if !props::run(&prop, &mut ctx) {
         eprintln!("unknown property {}", prop);
